@@ -2,9 +2,6 @@
 # K5 / K6 keys are NOT reviewed here: they are known findings (known_findings.json).
 def reason(k):
     if k.startswith('C13.P'):
-        if 'tokenNormalizer.lexer' in k:
-            return ("the constructor leaves lexer nil only when onlyNormalizeByBytesPatterns(builtin) holds and there are no custom patterns; that predicate requires a non-empty mask made of "
-                    "by-bytes patterns only, for which hasPattern(builtin, normalizeByBytesPatterns...) — the value of normalizeByBytes — is true, so the else branch (the unguarded Scanner call) is not taken with a nil lexer")
         if 'Plugin.maskAppliedMetric' in k:
             return ("makeMetric returns nil only for an empty metric name; the call is under `p.config.AppliedMetricName != \"\"`, the very name the metric was made from in registerMetrics at Start "
                     "(config fields are not written after Start)")
